@@ -3,7 +3,7 @@
    run of propagations over the records' direct facts. *)
 From Coq Require Import Lia Relations Sorted.
 From HpoV Require Import Gen.Consts Model.Base Model.Group Model.Onto Model.Query Model.Binary
-  Proofs.GroupP Proofs.BaseP Proofs.ClosureP Proofs.DistP Proofs.QgoodP Proofs.LinkP Proofs.SectionP Proofs.RoundTripP.
+  Proofs.GroupP Proofs.BaseP Proofs.ClosureP Proofs.AcyclicP Proofs.DistP Proofs.QgoodP Proofs.LinkP Proofs.SectionP Proofs.RoundTripP.
 
 Lemma anc_in_keys a c x : wf_ar a -> anc a c x -> In x (ar_keys a).
 Proof.
@@ -11,7 +11,7 @@ Proof.
 Qed.
 
 (* exact caches + acyclic + sorted annotation sets = the hypotheses of the propagation theorems *)
-Theorem qgood_good k o : qgood o -> ranked (o_arena o) ->
+Theorem qgood_good k o : qgood o -> acyclic (o_arena o) ->
   (forall t, In t (ar_terms (o_arena o)) -> sorted (t_annots k t)) -> good k (o_arena o).
 Proof.
   intros G R S. pose proof (q_wf o G) as W. constructor.
@@ -21,7 +21,7 @@ Proof.
     destruct (key_find _ p W (anc_in_keys _ _ _ W Hp)) as [tp [_ [Htp [Hid _]]]].
     exists tp. split; [exact Htp|]. split; [exact Hid|]. intros x Hx.
     apply (q_exact o G tp Htp) in Hx. apply (q_exact o G t Ht). rewrite Hid in Hx. eapply t_trans; eassumption.
-  - intros t Ht Hin. apply (q_exact o G t Ht) in Hin. apply (ranked_irreflexive _ R _ Hin).
+  - intros t Ht Hin. apply (q_exact o G t Ht) in Hin. apply (R _ Hin).
   - exact S.
 Qed.
 
@@ -97,7 +97,7 @@ Proof.
   - intros Hx. exists t. auto.
 Qed.
 
-Theorem phase_spec k o rs o' : qgood o -> ranked (o_arena o) ->
+Theorem phase_spec k o rs o' : qgood o -> acyclic (o_arena o) ->
   (forall t, In t (ar_terms (o_arena o)) -> t_annots k t = []) ->
   foldM (load_record k) rs o = Ok o' ->
   frame k (o_arena o) (o_arena o') /\
@@ -184,8 +184,12 @@ Proof.
   intros [_ F]. unfold same_struct. eapply Forall2_impl_In; [|exact F]. intros t t' _ _ ->. apply set_annots_struct.
 Qed.
 
-Lemma ranked_links a a' : same_links a a' -> ranked a -> ranked a'.
-Proof. intros S [rank Hr]. exists rank. intros c p H. apply Hr. apply (same_links_parent_rel a a' c p S), H. Qed.
+Lemma ranked_links a a' : same_links a a' -> acyclic a -> acyclic a'.
+Proof. intros S Ac c H. apply (Ac c). apply (same_links_anc a a' c c S), H. Qed.
+
+(* a graph with a rank function is acyclic *)
+Lemma ranked_acyclic a : ranked a -> acyclic a.
+Proof. intros R c. apply (ranked_irreflexive a R c). Qed.
 
 Lemma other_kind_annots k k' g t : k <> k' -> t_annots k (set_annots k' g t) = t_annots k t.
 Proof. destruct k, k', t; try reflexivity; congruence. Qed.
@@ -231,7 +235,7 @@ Proof.
 Qed.
 
 (* THE RELOAD KEEPS THE ANNOTATION SETS OF EVERY TERM *)
-Theorem rebuild_keeps_annotations icf order o o'' : src_ok o -> ranked (o_arena o) -> ann_ok o ->
+Theorem rebuild_keeps_annotations icf order o o'' : src_ok o -> acyclic (o_arena o) -> ann_ok o ->
   (forall l r, In r (order l) <-> In r l) -> rebuild icf order o = Ok o'' ->
   Forall2 (fun t t'' => forall k, t_annots k t'' = t_annots k t) (ar_terms (o_arena o)) (ar_terms (o_arena o'')).
 Proof.
@@ -247,19 +251,19 @@ Proof.
   set (o3 := set_arena a3 (set_version (o_version o) onto_new)) in *.
   pose proof (term_kept_links o a3 K3) as SL3.
   assert (qgood o3) as G3 by (apply (qgood_same_links o o3 (so_q o S)); exact SL3).
-  assert (ranked (o_arena o3)) as R3 by (apply (ranked_links _ _ SL3 R)).
+  assert (acyclic (o_arena o3)) as R3 by (apply (ranked_links _ _ SL3 R)).
   (* the three phases *)
   destruct (phase_spec KGene o3 _ o4 G3 R3 (fun t0 Ht0 => N3 t0 Ht0 KGene) H4) as [FrG SpG].
   pose proof (frame_same_struct _ _ _ FrG) as SSG.
   assert (qgood o4) as G4 by (apply (qgood_same_links o3 o4 G3), same_struct_links, SSG).
-  assert (ranked (o_arena o4)) as R4 by (apply (ranked_links _ _ (same_struct_links _ _ SSG) R3)).
+  assert (acyclic (o_arena o4)) as R4 by (apply (ranked_links _ _ (same_struct_links _ _ SSG) R3)).
   assert (forall t0, In t0 (ar_terms (o_arena o4)) -> t_annots KOmim t0 = [] /\ t_annots KOrpha t0 = []) as N4.
   { intros t0 H0. destruct (frame_In_r KGene _ _ t0 FrG H0) as [t3 [Ht3 ->]].
     rewrite !other_kind_annots by discriminate. split; apply (N3 t3 Ht3). }
   destruct (phase_spec KOmim o4 _ o5 G4 R4 (fun t0 Ht0 => proj1 (N4 t0 Ht0)) H5) as [FrM SpM].
   pose proof (frame_same_struct _ _ _ FrM) as SSM.
   assert (qgood o5) as G5 by (apply (qgood_same_links o4 o5 G4), same_struct_links, SSM).
-  assert (ranked (o_arena o5)) as R5 by (apply (ranked_links _ _ (same_struct_links _ _ SSM) R4)).
+  assert (acyclic (o_arena o5)) as R5 by (apply (ranked_links _ _ (same_struct_links _ _ SSM) R4)).
   assert (forall t0, In t0 (ar_terms (o_arena o5)) -> t_annots KOrpha t0 = []) as N5.
   { intros t0 H0. destruct (frame_In_r KOmim _ _ t0 FrM H0) as [t4 [Ht4 ->]].
     rewrite other_kind_annots by discriminate. apply (N4 t4 Ht4). }
@@ -295,7 +299,7 @@ Proof.
     apply (annots_eq KOrpha o order (o_arena o5) t t6 A Ho Ht); [congruence|exact Al5|exact Ss|exact Sx].
 Qed.
 
-Theorem reload_keeps_annotations icf order o o'' : file_ok order o -> src_ok o -> ranked (o_arena o) -> ann_ok o ->
+Theorem reload_keeps_annotations icf order o o'' : file_ok order o -> src_ok o -> acyclic (o_arena o) -> ann_ok o ->
   (forall l r, In r (order l) <-> In r l) ->
   decode icf (encode_with order o) = Ok o'' ->
   Forall2 (fun t t'' => forall k, t_annots k t'' = t_annots k t) (ar_terms (o_arena o)) (ar_terms (o_arena o'')).
